@@ -618,7 +618,11 @@ class C31:
         idxs = sorted(set(idxs) | set(2 * i for i in seen.values()) | set(2 * i + 1 for i in seen.values()))
       if r.kind == 'id':
         n = int(getattr(m, r.target))
-        elem_cases(f, idxs, Q([n, n + 7, r.lo - 1, -9, INT_MAX, INT_MIN], [n, r.lo - 1]),
+        # addresses into packed NUL-separated text (plugin attributes, paths) are only probed outside the array: a value
+        # inside it moves the start into the middle of the text, which is not a range question
+        packed = f in ('plugin_attradr', 'mesh_pathadr', 'hfield_pathadr', 'skin_pathadr', 'tex_pathadr')
+        elem_cases(f, idxs, [v for v in Q([n, n - 1, n + 7, r.lo - 1, -9, INT_MAX, INT_MIN], [n, n - 1, r.lo - 1])
+                             if not (packed and v == n - 1)],
                    'id >= %s or < %d' % (r.target, r.lo), [f])
       elif r.kind == 'name':
         n = int(m.nnames)
@@ -638,7 +642,8 @@ class C31:
         for i in idxs:      # the value just past the legal range of this element
           bv = boundary_value(lib, m, f, i)
           if bv is not None and bv >= 0:
-            elem_cases(f, [i], [bv], 'special relation')
+            # first invalid value and last valid value: the two values a slipped bound shows on
+            elem_cases(f, [i], [bv] + ([bv - 1] if bv >= 1 else []), 'special relation')
     if other:
       # int arrays outside the reference table (types, flags, counts, bvh/graph payload ...): judged by the full
       # reference check and by surviving mj_makeData + mj_forward
@@ -897,12 +902,22 @@ def main(ck):
   if not recs and not crecs:
     return
 
+  # ---------- a fixed cover document (replays/C31/cover.xml) is part of every run: it contains every branch the validator
+  # distinguishes (connect/weld through bodies AND through sites, joint/tendon equalities with and without a second
+  # object, all transmission types incl. refsite and slider-crank, all wrap types, sensors/tuples over many object types)
+  cover_rec = None
+  cpath = os.path.join(os.path.dirname(WORK), 'replays', 'C31', 'cover.xml')
+  if os.path.exists(cpath):
+    cxml = open(cpath).read()
+    cover_rec = c.roundtrip('cover-doc', lib.model_from_xml(cxml), xml=cxml, seed=ck.seed)
+    ck.case(nontrivial=True, key=('rt', 'cover-doc'), sample=dict(roundtrip='cover-doc', nbytes=cover_rec['nbytes']),
+            labels=['roundtrip:cover-doc'])
   # ---------- choose models for corruption: the richest small generated models + a greedy cover of the relation table
   small = sorted([r for r in recs if r['nbytes'] < 150000], key=lambda r: -len(r['xml']))
   gen_pick = small[:ck.budget(2, 10)]
   cpool = [r for r in crecs if r['nbytes'] < (150000 if quick else 1 << 20)]
   cov = pick_cover(c, gen_pick + cpool, rels)
-  targets = list(gen_pick) + [r for r in cov if r not in gen_pick]
+  targets = ([cover_rec] if cover_rec else []) + list(gen_pick) + [r for r in cov if r not in gen_pick]
   if not quick:      # second and third cover from the remaining corpus models
     for _ in range(2):
       rest = [r for r in cpool if r not in targets]
